@@ -164,6 +164,70 @@ fn run_budget(a: &[Sx]) -> String {
     }
 }
 
+/// An evaluator for `Sphere` that records into its OWN probe (never the problem's).
+struct ProbeEval(hcommon::problems::Probe);
+impl mahf::problems::Evaluate for ProbeEval {
+    type Problem = hcommon::problems::Sphere;
+    fn evaluate(&mut self, problem: &Self::Problem, _state: &mut State<Self::Problem>, individuals: &mut [Individual<Self::Problem>]) {
+        for i in individuals {
+            let probe = &self.0;
+            i.evaluate_with(|s| {
+                let v = problem.f(s);
+                probe.record(v);
+                SingleObjective::try_from(v).unwrap_or(SingleObjective::try_from(f64::INFINITY).unwrap())
+            });
+        }
+    }
+}
+
+/// `(fa a|g (reg a g) (n N) (inst I) (iters K) (seed S))`: the firefly skeleton `fa::fa::<P, ID>` with
+/// `FireflyPositionsUpdate::<ID>`; the evaluator under `ID` records into probe A, the evaluator under the
+/// other identifier (if registered) into probe G.
+fn run_fa(a: &[Sx]) -> String {
+    use hcommon::problems::{Probe, Sphere};
+    use mahf::components::{boundary, initialization, swarm, utils};
+    use mahf::heuristics::fa;
+    fn build<I: mahf::identifier::Identifier>(n: u32, iters: u32) -> Configuration<Sphere> {
+        Configuration::builder()
+            .do_(initialization::RandomSpread::new(n))
+            .evaluate_with::<I>()
+            .update_best_individual()
+            .do_(fa::fa::<Sphere, I>(
+                fa::Parameters {
+                    firefly_update: swarm::fa::FireflyPositionsUpdate::<I>::new_with_id(0.25, 1.0, 0.01),
+                    constraints: boundary::Saturation::new(),
+                    alpha_update: utils::Noop::new(),
+                },
+                LessThanN::iterations(iters),
+            ))
+            .build()
+    }
+    let id = a[0].atom().unwrap();
+    let reg: Vec<&str> = a[1].head().unwrap().1.iter().map(|x| x.atom().unwrap()).collect();
+    let get = |k: usize| a[k].head().unwrap().1[0].nat().unwrap();
+    let (n, inst, iters, seed) = (get(2) as u32, get(3) as u32, get(4) as u32, get(5));
+    let problem = sphere_instance(inst);
+    let (pa, pg) = (Probe::new(false), Probe::new(false));
+    let config = if id == "a" { build::<CustomId>(n, iters) } else { build::<mahf::identifier::Global>(n, iters) };
+    let r = catch(|| {
+        config.optimize_with(&problem, |state| {
+            state.insert(mahf::Random::new(seed));
+            for r in &reg {
+                let mine = *r == id;
+                let ev = ProbeEval(if mine { pa.clone() } else { pg.clone() });
+                if *r == "a" { state.insert_evaluator_as::<CustomId>(ev) } else { state.insert_evaluator(ev) }
+            }
+            Ok(())
+        })
+    });
+    let (res, evals) = match r {
+        None => ("panic".to_string(), "none".to_string()),
+        Some(Err(e)) => (format!("(e {})", err_kind(&e)), "none".to_string()),
+        Some(Ok(state)) => ("ok".to_string(), state.try_get_value::<Evaluations>().ok().map(|v| v.to_string()).unwrap_or("none".into())),
+    };
+    format!("((res {}) (evals {}) (callsA {}) (callsG {}))", res, evals, pa.count(), pg.count())
+}
+
 /// Visitor for run-level counting.
 struct Counting {
     frames: Vec<(u64, Option<u32>, usize, usize)>, // probe count, visible evals, top size, number of children
@@ -246,6 +310,7 @@ fn run_case(input: &Sx) -> (String, String) {
         "evalsteps" => ("PopulationEvaluator".into(), run_evalsteps(a)),
         "budget" => ("LessThanN-evaluations".into(), run_budget(a)),
         "run" => (a[0].atom().unwrap().to_string(), run_run(a)),
+        "fa" => ("FireflyPositionsUpdate".into(), run_fa(a)),
         other => panic!("unknown case {other}"),
     }
 }
@@ -320,6 +385,15 @@ fn main() {
     for n in 0..=(if a.thorough { 60 } else { 24 }) {
         for m in [1u64, 2, 3, 5, 7, 12] {
             emit(format!("(budget (n {n}) (m {m}))"));
+        }
+    }
+    // 2b. firefly skeleton with a non-Global evaluator identifier (and Global for comparison)
+    for (id, reg) in [("a", "a"), ("a", "a g"), ("a", "g a"), ("g", "g"), ("g", "g a")] {
+        for n in [2u64, 3, 5] {
+            for k in 0..(if a.thorough { 8 } else { 2 }) {
+                let inst = (n + k) % 4;
+                emit(format!("(fa {id} (reg {reg}) (n {n}) (inst {inst}) (iters 4) (seed {}))", a.seed * 100 + k));
+            }
         }
     }
     // 3. run level
